@@ -98,6 +98,7 @@ func main() {
 		slog     = flag.String("solverlog", "", "solver log prefix")
 		knownF   = flag.String("known", "", "comma separated open known-finding ids")
 		list     = flag.Bool("list", false, "list harnesses in the package")
+		prefixF  = flag.String("prefix", "", "start exploration from this decision prefix only (comma separated)")
 		wallMax  = flag.Int("walltime", 3000, "wall-clock limit for exploration in seconds (fail closed)")
 		bounds   multiFlag
 		stubs    multiFlag
@@ -313,6 +314,17 @@ func main() {
 			}
 		}
 	}()
+	if *prefixF != "" {
+		var pf []int64
+		for _, x := range strings.Split(*prefixF, ",") {
+			v, err := strconv.ParseInt(strings.TrimSpace(x), 10, 64)
+			if err != nil {
+				fatal("bad prefix")
+			}
+			pf = append(pf, v)
+		}
+		eng.initialWork = [][]int64{pf}
+	}
 	eng.Explore(hfn)
 	close(doneCh)
 	wall := time.Since(t1).Seconds()
@@ -391,6 +403,23 @@ func main() {
 		o.Stubs = append(o.Stubs, "stub:"+from.String()+"="+to.Name())
 	}
 	sort.Strings(o.Stubs)
+	if *verbose {
+		type kv struct {
+			k string
+			v int
+		}
+		var fs []kv
+		for k, v := range eng.forkSites {
+			fs = append(fs, kv{k, v})
+		}
+		sort.Slice(fs, func(i, j int) bool { return fs[i].v > fs[j].v })
+		for i, f := range fs {
+			if i >= 15 {
+				break
+			}
+			fmt.Fprintf(os.Stderr, "[forks] %6d %s\n", f.v, f.k)
+		}
+	}
 	data, _ := json.MarshalIndent(o, "", " ")
 	if *out != "" {
 		os.WriteFile(*out, data, 0o644)
@@ -486,12 +515,25 @@ func (e *Exec) callMerged(caller *frame, fn *ssa.Function, args []Value, env []V
 		sub.steps = 0
 		sub.localWork = &work
 		var val Value
+		infeasible := false
 		func() {
 			defer func() {
 				if r := recover(); r != nil {
-					switch r.(type) {
-					case goPanic, pathAbort:
+					switch r := r.(type) {
+					case pathAbort:
+						if r.kind == "infeasible" {
+							infeasible = true
+						} else {
+							failed = true
+							if e.eng.conf.Verbose {
+								fmt.Fprintf(os.Stderr, "[merge] %s abandoned: %s %s\n", fn.Name(), r.kind, r.msg)
+							}
+						}
+					case goPanic:
 						failed = true
+						if e.eng.conf.Verbose {
+							fmt.Fprintf(os.Stderr, "[merge] %s abandoned: panic %s\n", fn.Name(), panicString(r.v))
+						}
 					default:
 						panic(r)
 					}
@@ -502,6 +544,9 @@ func (e *Exec) callMerged(caller *frame, fn *ssa.Function, args []Value, env []V
 		if failed {
 			break
 		}
+		if infeasible {
+			continue
+		}
 		g := c.tt
 		for _, t := range sub.pc {
 			g = c.And(g, t)
@@ -511,7 +556,7 @@ func (e *Exec) callMerged(caller *frame, fn *ssa.Function, args []Value, env []V
 			failed = true
 		}
 	}
-	if failed || len(e.ctx.vars) != nvars {
+	if failed || len(outs) == 0 || len(e.ctx.vars) != nvars {
 		e.ctx.vars = e.ctx.vars[:nvars]
 		return e.callSSA(caller, fn, args, env)
 	}
